@@ -472,3 +472,8 @@ func describe(v Value) string {
 
 // NativeVal wraps a Go value that lives outside the interpreter (e.g. *regexp.Regexp)
 type NativeVal struct{ V interface{} }
+
+// typeHint returns the named type pkg.name (used to look up methods on struct values)
+func (s *StructVal) typeHint(x *Exec, pkg, name string) types.Type {
+	return x.eng.findType(pkg, name)
+}
